@@ -54,13 +54,13 @@ CLAIMS = {
         "engine": "vcore C11",
         "technique": PBT + ": stateful histories on a standalone pool with liveness tokens in coroutine-local storage",
         "text": "Generated submit/pass/sleep/cancel histories (task bodies return, panic, delay, suspend): running size <= max after every step, == live worker coroutines after every pass that ran dry, 0 and prompt stop once all work is done or cancelled.",
-        "note": "min_size = 0 and finite keep-alive only (an idle core worker spins inside the scheduling pass and never hands control back to a single-threaded driver); one pool per process at a time.",
+        "note": "min_size = 0 and finite keep-alive only (an idle core worker spins inside the scheduling pass and never hands control back to a single-threaded driver); one pool per process: every history (generated, shrink candidate, regression seed, replay) runs in its own fresh child process, since pools of one process steal each other's leftover tasks and worker coroutines; a child still running after 25 s is reported as a non-returning call.",
     },
     "C12": {
         "engine": "vcore C12",
         "technique": PBT + ": stateful histories on a standalone pool with helper-thread waiters",
         "text": "Generated submit/pass/cancel/wait/stop(long|short) histories: states only move forward, submits after stop are rejected, stop reports success only when every accepted uncancelled task has finished, waiters are settled after stop.",
-        "note": "Standalone CoroutinePool (the EventLoops stop path is exercised by the runtime engines); waiters run on helper threads sharing the pool by reference as EventLoops does.",
+        "note": "Standalone CoroutinePool (the EventLoops stop path is exercised by the runtime engines); waiters run on helper threads sharing the pool by reference as EventLoops does; one fresh child process per history (single pool per process is an assumption of the claim, multi-pool accounting is not covered, DESIGN.md 10.1).",
     },
     "C16": {
         "engine": "vsock C16",
